@@ -19,6 +19,7 @@ iff a reference was emitted in it, to an observed target; single-step targets ar
 """
 import io
 import json
+import os
 
 from . import common
 
@@ -244,6 +245,151 @@ def facts_from_rows(res, tables_in):
             if isinstance(v, dict) and v.get("t") == "ref":
                 refs.setdefault((table, k), set()).add(v["table"])
     return tables, refs
+
+
+def facts_from_recipe(case):
+    """What the property is evaluated against, taken from the RECIPE (the generator's own structure), never
+    from `summary.tables` after the run: visible tables, their visible fields, their update keys, and which
+    fields hold references to which tables."""
+    tpls = case["templates"]
+    nick = {t["nickname"]: t["table"] for t in tpls if t.get("nickname")}
+    tables, refs = {}, {}
+
+    def resolve(name):
+        return nick.get(name, name)
+
+    def walk(t):
+        tb = t["table"]
+        vis = not hidden(tb)
+        if vis:
+            ent = tables.setdefault(tb, {"fields": [], "keys": []})
+            k = t.get("update_key") or None
+            if k not in ent["keys"]:
+                ent["keys"].append(k)
+        for f, (kind, v) in t["fields"]:
+            targets = []
+            if kind == "ref":
+                targets = [resolve(v)]
+            elif kind == "rref":
+                targets = [resolve(v)]
+            elif kind == "nested":
+                targets = [v["table"]]
+                walk(v)
+            elif kind == "choice":
+                targets = [resolve(x) for x in v]
+            if vis and not hidden(f):
+                if f not in ent["fields"]:
+                    ent["fields"].append(f)
+                if targets:
+                    refs.setdefault((tb, f), set()).update(targets)
+        for fr in t["friends"]:
+            walk(fr)
+
+    for t in tpls:
+        walk(t)
+    return tables, refs
+
+
+OUTPUT_CONFIGS = ["debug", "json", "txt", "sql", "dburl", "csv", "multi"]
+
+
+def api_mapping_with_output(text, decls, config, continuation=None, want_continuation=False):
+    """`generate_data(..., generate_cci_mapping_file=…)` the ways a user can drive it.
+    Returns (canonical mapping | {"error":…}, continuation text | None)."""
+    import contextlib
+    import shutil
+    import tempfile
+    import yaml
+    from snowfakery.api import generate_data
+
+    tmp = tempfile.mkdtemp(prefix="verif_c16_")
+    m = io.StringIO()
+    kw = {}
+    if decls:
+        kw["load_declarations"] = [io.StringIO(decl_yaml(decls))]
+    if config == "json":
+        kw.update(output_file=io.StringIO(), output_format="json")
+    elif config == "txt":
+        kw.update(output_file=io.StringIO(), output_format="txt")
+    elif config == "sql":
+        kw.update(output_file=io.StringIO(), output_format="sql")
+    elif config == "dburl":
+        kw.update(dburl=f"sqlite:///{tmp}/out.db")
+    elif config == "csv":
+        kw.update(output_format="csv", output_folder=os.path.join(tmp, "csv"))
+    elif config == "multi":
+        kw.update(dburl=f"sqlite:///{tmp}/out.db", output_format="csv", output_folder=os.path.join(tmp, "csv"))
+    cont_out = io.StringIO() if want_continuation else None
+    if want_continuation:
+        kw["generate_continuation_file"] = cont_out
+    if continuation is not None:
+        kw["continuation_file"] = io.StringIO(continuation)
+    try:
+        with contextlib.redirect_stdout(io.StringIO()):
+            generate_data(io.StringIO(text), generate_cci_mapping_file=m, **kw)
+        out = {"ok": canon_mapping(yaml.safe_load(m.getvalue()) or {})}
+    except Exception as e:  # noqa
+        out = {"error": canon_exc(e)}
+    finally:
+        shutil.rmtree(tmp, ignore_errors=True)
+    return out, (cont_out.getvalue() if cont_out is not None and "ok" in out else None)
+
+
+def check_outputs(case, rep, reqs, meta, rng):
+    """One deterministic recipe, every output configuration (and continuations): each mapping must satisfy
+    the property against the recipe's own tables/fields, and all of them must be equal."""
+    decls = case.get("decls", [])
+    res, minput, base, _ = run_recipe_mapping(case["text"], decls)
+    rep.count("outputs:baseline:" + res.outcome)
+    if res.outcome != "ok":
+        rep.case(case, nontrivial=False)
+        return
+    tables, refs = facts_from_recipe(case)
+    _, row_refs = facts_from_rows(res, [])
+    if {k: sorted(v) for k, v in row_refs.items()} != {k: sorted(v) for k, v in refs.items()}:
+        # the harness's reading of its own recipe and the emitted rows disagree: trust the rows for references
+        rep.count("outputs:recipe-refs-differ-from-rows")
+        refs = row_refs
+    oracle_mapping(rep, case, tables, refs, base, "outputs")
+    tables_in, deps = minput
+    reqs.append({"m": "c16.mapping", "tables": tables_in, "deps": deps, "decls": decls})
+    meta.append((case, "mapping", base))
+    results = {"capture": base}
+    configs = case.get("configs") or OUTPUT_CONFIGS
+    for cfg in configs:
+        out, _ = api_mapping_with_output(case["text"], decls, cfg)
+        rep.count(f"outputs:{cfg}:" + ("ok" if "ok" in out else out["error"][0]))
+        results[cfg] = out
+        if "ok" in out:
+            oracle_mapping(rep, dict(case, config=cfg), tables, refs, out, "outputs")
+    # continuation: first run under one configuration, continued run under another
+    for cfg1, cfg2 in case.get("continuations") or [tuple(rng.sample(OUTPUT_CONFIGS, 2)), ("csv", "json")]:
+        out1, cont = api_mapping_with_output(case["text"], decls, cfg1, want_continuation=True)
+        if cont is None:
+            continue
+        out2, _ = api_mapping_with_output(case["text"], decls, cfg2, continuation=cont)
+        rep.count("outputs:continued:" + ("ok" if "ok" in out2 else out2["error"][0]))
+        results[f"{cfg1}>continued:{cfg2}"] = out2
+        if "ok" in out2:
+            oracle_mapping(rep, dict(case, config=f"{cfg1}>continued:{cfg2}"), tables, refs, out2, "outputs")
+    oks = {k: v for k, v in results.items() if "ok" in v}
+    ref_key = "capture" if "capture" in oks else (sorted(oks)[0] if oks else None)
+    for k, v in oks.items():
+        if v != oks[ref_key]:
+            a, b = oks[ref_key]["ok"], v["ok"]
+            diff = [(x.get("name"), y.get("name")) for x, y in zip(a, b) if x != y][:3]
+            rep.violation(
+                "C16:mapping-depends-on-output-configuration",
+                f"the mapping generated with output configuration {k!r} differs from the one with {ref_key!r} "
+                f"(first differing steps: {diff}; {len(a)} vs {len(b)} steps)",
+                dict(case, configs=[k] if k in OUTPUT_CONFIGS else ["debug"],
+                     continuations=[tuple(k.split(">continued:"))] if ">continued:" in k else []),
+                oks[ref_key], v)
+            break
+    errs = {k: v for k, v in results.items() if "error" in v}
+    if errs and oks:
+        rep.count("outputs:some-configuration-failed")
+    rep.case(case, nontrivial=len(tables) >= 2 and len(deps) >= 1)
 
 
 def oracle_mapping(rep, case, tables, refs, out, level):
@@ -635,7 +781,11 @@ def check_cases(cases, rep, rng=None, api_fraction=0.35):
                 rep.case(case, nontrivial=False)
                 continue
             tables_in, deps = minput
-            tables, refs = facts_from_rows(res, tables_in)
+            if case.get("templates"):
+                tables, _ = facts_from_recipe(case)  # what the recipe declares …
+                _, refs = facts_from_rows(res, [])  # … and which references the run emitted
+            else:  # hand-written replay without structure
+                tables, refs = facts_from_rows(res, tables_in)
             oracle_mapping(rep, case, tables, refs, out, "recipe")
             # run-time discovery: the recorded dependencies are exactly the references that were emitted
             obs = observed_in_rows(res.rows)
@@ -663,6 +813,8 @@ def check_cases(cases, rep, rng=None, api_fraction=0.35):
                         rep.disagreement("c16.api-vs-function", case, out, api)
         elif kind == "chain":
             check_chain(case, rep, reqs, meta)
+        elif kind == "outputs":
+            check_outputs(case, rep, reqs, meta, rng)
         else:
             rep.notes.append(f"unknown case kind {kind}")
     res = common.model_batch(reqs)
@@ -705,6 +857,28 @@ def _has_random(case):
     return any(walk(t) for t in case.get("templates", []))
 
 
+def _has_choice(case):
+    def walk(t):
+        for _, (kind, v) in t["fields"]:
+            if kind == "choice":
+                return True
+            if kind == "nested" and walk(v):
+                return True
+        return any(walk(fr) for fr in t["friends"])
+
+    return any(walk(t) for t in case.get("templates", []))
+
+
+def gen_outputs_case(rng):
+    """A recipe whose dependency set does not depend on chance, to be driven through every output configuration."""
+    for _ in range(50):
+        case = gen_recipe_case(rng)
+        if not _has_choice(case):
+            break
+    case["kind"] = "outputs"
+    return case
+
+
 def check_chain(case, rep, reqs, meta):
     """run 1 (fresh, writes a continuation) then continued runs; the mapping must not change."""
     decls = case.get("decls", [])
@@ -714,7 +888,11 @@ def check_chain(case, rep, reqs, meta):
         rep.case(case, nontrivial=False)
         return
     tables_in, deps1 = minput
-    tables, refs = facts_from_rows(res, tables_in)
+    if case.get("templates"):
+        tables, _ = facts_from_recipe(case)
+        _, refs = facts_from_rows(res, [])
+    else:
+        tables, refs = facts_from_rows(res, tables_in)
     oracle_mapping(rep, case, tables, refs, out1, "chain")
     reqs.append({"m": "c16.mapping", "tables": tables_in, "deps": deps1, "decls": decls})
     meta.append((case, "mapping", out1))
@@ -770,6 +948,18 @@ FIXED_CASES = [
 ]
 
 
+def _tpl(table, fields=(), **kw):
+    return dict({"table": table, "fields": [list(f) for f in fields], "friends": []}, **kw)
+
+
+_OUT_FIXED = [
+    _tpl("A", [["name", ["lit", "x"]]], update_key="name"),
+    _tpl("A", [["g", ["lit", 1]]]),
+    _tpl("B", [["f", ["ref", "A"]]], count=2),
+]
+FIXED_CASES.append({"kind": "outputs", "templates": _OUT_FIXED, "decls": [], "text": render_recipe(_OUT_FIXED)})
+
+
 def run(ctx, rep, findings):
     rep.rule = (
         "function level: 1-8 TableInfos (0-5 fields, 1-3 templates with update keys), dependency graphs "
@@ -777,7 +967,10 @@ def run(ctx, rep, findings):
         "polymorphic fields), 0-3 load_after declarations; raw sort_dependencies calls; end to end: recipes of "
         "2-6 top-level templates over 2-6 tables with reference / random_reference / nested objects / friends / "
         "random_choice of references / hidden tables and fields / update keys / just_once, with and without "
-        "declarations; continuation chains of 2-3 runs. Non-trivial: >= 2 tables and >= 1 dependency "
+        "declarations; continuation chains of 2-3 runs; output-configuration cases: one chance-free recipe through "
+        "snowfakery.api.generate_data with no output (debug), json, txt, sql, sqlite dburl, CSV folder, dburl+CSV "
+        "folder, and continued runs across configurations, all mappings compared; the visible fields the oracle "
+        "checks come from the recipe's own structure. Non-trivial: >= 2 tables and >= 1 dependency "
         "(sort: >= 3 tables and a dependency). Distinct = distinct case hash."
     )
     rep.extra["pinned_deps_access"] = pinned_access()
@@ -796,6 +989,8 @@ def run(ctx, rep, findings):
             cases.append(gen_recipe_case(rng))
         if i < n_chain:
             cases.append(gen_recipe_case(rng, continuation=True))
+    for _ in range(ctx.scale(45, 500)):
+        cases.append(gen_outputs_case(rng))
     for i in range(0, len(cases), 500):
         check_cases(cases[i : i + 500], rep, rng)
         if ctx.time_left() < 60:
@@ -815,7 +1010,7 @@ def shrink(case, signature):
         return any(v["signature"] == signature for v in r.violations)
 
     kind = case.get("kind")
-    if kind in ("recipe", "chain") and case.get("templates"):
+    if kind in ("recipe", "chain", "outputs") and case.get("templates"):
         def f_t(tpls):
             return fails(dict(case, templates=tpls, text=render_recipe(tpls)))
 
